@@ -387,6 +387,32 @@ static void fftvec_case(int ly, int addmul, int variant, uint64_t m, int fam, in
       b[i] = ldexp(rng_unit(r) + 0.5, 1000) * ((rng_u64(r) & 1) ? 1 : -1);
       rr[i] = ldexp(rng_unit(r) - 0.5, -40);                                     // the accumulator of addmul: the size of the products
     }
+  // one case in four: the second operand is a function of the first - its complex conjugate, its negative, its conjugate negated, a
+  // copy - exactly, or (odd kinds) with the last mantissa bits of a quarter of the elements changed: squared norms, differences of
+  // squares and almost-Hermitian pairs are what these kernels see in practice, and independent draws never produce them
+  if (fam != V_SUBNORMAL && (rng_u64(r) & 3) == 0) {
+    const unsigned kind = (unsigned)(rng_u64(r) % 8);
+    for (uint64_t j = 0; j < m; j++) {
+      uint64_t ire, iim;
+      idx(ly, m, j, &ire, &iim);
+      double br = a[ire], bi = a[iim];
+      switch (kind / 2) {
+        case 0: bi = -bi; break;            // conj(a)
+        case 1: br = -br; bi = -bi; break;  // -a
+        case 2: br = -br; break;            // -conj(a)
+        default: break;                     // a
+      }
+      if ((kind & 1) && (rng_u64(r) & 3) == 0 && fabs(bi) > 0x1p-500) {  // (not on zeros: that would create subnormals, the business of another family)
+        uint64_t w;
+        memcpy(&w, &bi, 8);
+        w ^= 1 + (rng_u64(r) & 0xFFFFFu);   // up to 2^-32 relative
+        memcpy(&bi, &w, 8);
+      }
+      b[ire] = br;
+      b[iim] = bi;
+    }
+    cnt("related_operand_vectors", 1);
+  }
   double* a0 = malloc(2 * m * 8);
   double* b0 = malloc(2 * m * 8);
   double* r0 = malloc(2 * m * 8);
